@@ -217,7 +217,17 @@ if __name__ == "__main__":
                             lambda: ops.Gaussian(Vm, r=np.array([0.3, -0.2]), decomp=False), modes, 3)
             Vm = np.eye(2) * 2.3 * hb / 2
             compare("Gaussian(thermal)", lambda: ops.Gaussian(Vm), lambda: ops.Gaussian(Vm, decomp=False), modes, 3)
+            # diagonal covariance matrices of every kind: mixed with unequal quadrature variances (squeezed thermal), equal
+            # ones (thermal), at the vacuum level in one quadrature only
+            for vx, vp in ((0.9, 3.6), (3.6, 0.9), (1.0, 2.5), (2.5, 1.0), (0.5, 2.0 + 1e-3), (1.7, 1.7)):
+                Vm = np.diag([vx, vp]) * hb / 2
+                compare(f"Gaussian(diagonal V_xx={vx}, V_pp={vp})", lambda: ops.Gaussian(Vm, r=np.array([0.2, -0.1])),
+                        lambda: ops.Gaussian(Vm, r=np.array([0.2, -0.1]), decomp=False), modes, 3)
         for modes in ([0, 1], [1, 0], [2, 0]):
+            # products of different kinds of diagonal single-mode states: thermal x squeezed vacuum, thermal x squeezed thermal, ...
+            for (ax, ap), (bx, bp) in (((2.4, 2.4), (np.exp(-1.0), np.exp(1.0))), ((2.4, 2.4), (2.7, 0.8)), ((0.8, 2.7), (2.7, 0.8)), ((1.0, 1.0), (3.0, 3.0))):
+                Vm = np.diag([ax, bx, ap, bp]) * hb / 2
+                compare(f"Gaussian(diagonal product ({ax:.3g},{ap:.3g}) x ({bx:.3g},{bp:.3g}))", lambda: ops.Gaussian(Vm), lambda: ops.Gaussian(Vm, decomp=False), modes, 3)
             for phi in angles[::2]:
                 Vm = xxpp([sq_block(0.5, phi), sq_block(0.3, phi + 1.1)]) * hb / 2
                 compare(f"Gaussian(two rotated blocks, phi={phi:.3f})", lambda: ops.Gaussian(Vm), lambda: ops.Gaussian(Vm, decomp=False), modes, 3)
